@@ -25,7 +25,11 @@ template <class T> inline T Qarea(const Ell<T>& E, T sphi) {
 }
 // the same by quadrature of the defining integrand (validation of the closed form)
 template <class T> inline T Qarea_quad(const Ell<T>& E, T phi_rad) {
-  return integrate<T>([&E](T p) { T s = sin(p); return E.rho(s) * E.nu(s) * cos(p); }, (T)0, phi_rad, (T)0.02);
+  // nearest singularity of (1 - e2 sin^2 phi)^-2: sin(phi) = 1/e  (phi = pi/2 +- i acosh(1/e)) or, prolate, phi = +- i asinh(1/|e|)
+  T d = (T)1;
+  if (E.e2 > 0) d = acosh(1 / sqrt(E.e2)); else if (E.e2 < 0) d = asinh(1 / sqrt(-E.e2));
+  T w = d / 2 < (T)0.05 ? d / 2 : (T)0.05;
+  return integrate<T>([&E](T p) { T s = sin(p); return E.rho(s) * E.nu(s) * cos(p); }, (T)0, phi_rad, w);
 }
 
 // S12 from the definition: int_{sig1}^{sig1+sig12} Q(phi(sig)) dlambda/dsig dsig with
@@ -73,10 +77,10 @@ template <class T> inline void miss_vector(const Ell<T>& E, const GeodPos<T>& P,
 }
 
 // Newton iteration for the geodesic from (lat1, 0) that reaches (lat2, lon12t) [degrees], starting from (azi1, s12 > 0).
-template <class T> inline InvSol<T> refine_inverse(const Ell<T>& E, T lat1, T lat2, T lon12t, T azi1, T s12, T tol_m, int maxit = 12) {
+template <class T> inline InvSol<T> refine_inverse(const Ell<T>& E, T lat1, T lat2, T lon12t, T azi1, T s12, T tol_m, int maxit = 12, bool azi_negative_zero = false) {
   InvSol<T> r; r.azi1 = azi1; r.s12 = s12; r.ok = false; r.iters = 0; r.miss = -1;
   for (int it = 0; it <= maxit; ++it) {
-    GeodLine<T> L(E, lat1, r.azi1);
+    GeodLine<T> L(E, lat1, r.azi1, azi_negative_zero && r.azi1 == azi1);
     r.P = L.at_dist(r.s12);
     T ds, dt; miss_vector(E, r.P, lat2, lon12t, ds, dt);
     r.miss = hypot(ds, dt); r.iters = it;
@@ -97,7 +101,7 @@ template <class T> inline InvSol<T> refine_inverse(const Ell<T>& E, T lat1, T la
 //   M12: start from the points displaced +-dt at right angles (direction azi1 + 90 deg) with a parallel heading;
 //        the end points are separated from point 2 by +-M12 dt along azi2 + 90 deg.
 //   M21: the same with the roles of the end points exchanged (run the geodesic backwards from point 2).
-template <class T> inline void jacobi_by_definition(const Ell<T>& E, T lat1, T azi1, T s12, T da_rad, T dt_m, T& m12, T& M12, T& M21) {
+template <class T> inline void jacobi_by_definition_h(const Ell<T>& E, T lat1, T azi1, T s12, T da_rad, T dt_m, T& m12, T& M12, T& M21) {
   GeodLine<T> L0(E, lat1, azi1); GeodPos<T> P0 = L0.at_dist(s12);
   auto across = [&](const GeodPos<T>& base, const GeodPos<T>& P, T lonoff) {   // component of (P - base) along base.azi2 + 90
     T Xb[3], Xp[3], R[3]; to_xyz<T>(E, base.lat2, base.lon12, Xb); to_xyz<T>(E, P.lat2, P.lon12 + lonoff, Xp);
@@ -124,6 +128,13 @@ template <class T> inline void jacobi_by_definition(const Ell<T>& E, T lat1, T a
     GeodLine<T> Lb(E, P0.lat2, P0.azi2); GeodPos<T> Pb = Lb.at_dist(-s12);
     M21 = parallel(P0.lat2, P0.azi2, -s12, Pb);
   }
+}
+// central differences at steps h and h/2 with one Richardson step (error O(h^4))
+template <class T> inline void jacobi_by_definition(const Ell<T>& E, T lat1, T azi1, T s12, T da_rad, T dt_m, T& m12, T& M12, T& M21) {
+  T a1, b1, c1, a2, b2, c2;
+  jacobi_by_definition_h(E, lat1, azi1, s12, da_rad, dt_m, a1, b1, c1);
+  jacobi_by_definition_h(E, lat1, azi1, s12, da_rad / 2, dt_m / 2, a2, b2, c2);
+  m12 = (4 * a2 - a1) / 3; M12 = (4 * b2 - b1) / 3; M21 = (4 * c2 - c1) / 3;
 }
 
 }  // namespace ref
